@@ -50,7 +50,8 @@ def check(prop, tier):
         os.makedirs(d)
         open(os.path.join(d, "shapes.ndjson"), "w").write("\n".join(part) + "\n")
         procs.append((d, len(part), subprocess.Popen([drivebin, "shapes", "shapes.ndjson", "trace.ndjson"], cwd=d,
-                                                      stdout=subprocess.PIPE, stderr=subprocess.DEVNULL)))
+                                                      stdout=subprocess.PIPE, stderr=subprocess.DEVNULL,
+                                               env=dict(os.environ, GOMEMLIMIT=os.environ.get("GOMEMLIMIT", "1500MiB")))))
     for d, n, p in procs:
         try:
             p.communicate(timeout=3000)
